@@ -268,6 +268,10 @@ func (e *specEnv) lookup(name string) (sval, bool) {
 		return sval{v: v}, true
 	}
 	typeOfName := func() types.Type {
+		name := name
+		if i := strings.Index(name, "#"); i > 0 {
+			name = name[:i] // ver(name, i)
+		}
 		for _, p := range fr.fn.Params {
 			if p.Name() == name {
 				return p.Type()
@@ -336,6 +340,13 @@ func (e *specEnv) lookup(name string) (sval, bool) {
 			return sval{v: e.x.loadOld(e, a, t), typ: t}, true
 		}
 		return sval{v: e.x.load(e.s, a, t, false), typ: t}, true
+	}
+	if strings.HasPrefix(e.where, "ensures") && !strings.Contains(name, "#") {
+		// a local that is not bound on this return path: some value of its type (a clause that
+		// depends on it must guard with bound(x, i) or hold for every value)
+		if t := localVarType(fr.fn, name); t != nil {
+			return sval{v: e.x.freshVal(e.s, "unbound."+name, t), typ: t}, true
+		}
 	}
 	return sval{}, false
 }
@@ -1076,6 +1087,50 @@ func (e *specEnv) evalCall(n *ast.CallExpr) (sval, error) {
 			so = SPos
 		}
 		return sval{v: scalar(Select(e.heapOf("ghost:"+name, SArray(SInt, so)), ref, so))}, nil
+	case "ver": // ver(x, i): the i-th distinct value the local variable x was bound to on this path (0-based)
+		id, ok := n.Args[0].(*ast.Ident)
+		lit, ok2 := n.Args[1].(*ast.BasicLit)
+		if !ok || !ok2 {
+			return sval{}, fmt.Errorf("ver(name, index)")
+		}
+		v, found := e.lookup(id.Name + "#" + lit.Value)
+		if !found {
+			// not bound on this path: some value of the variable's type (guard with bound(x, i))
+			if e.frame != nil {
+				if t := localVarType(e.frame.fn, id.Name); t != nil {
+					return sval{v: x.freshVal(e.s, "unbound."+id.Name, t), typ: t}, nil
+				}
+			}
+			return sval{}, fmt.Errorf("ver(%s, %s): not bound on this path", id.Name, lit.Value)
+		}
+		return v, nil
+	case "bound": // bound(x, i): ver(x, i) exists on this path
+		id, ok := n.Args[0].(*ast.Ident)
+		lit, ok2 := n.Args[1].(*ast.BasicLit)
+		if !ok || !ok2 {
+			return sval{}, fmt.Errorf("bound(name, index)")
+		}
+		_, found := e.lookup(id.Name + "#" + lit.Value)
+		return sval{v: scalar(Bool(found)), typ: boolT}, nil
+	case "int": // int(f): float64 -> int as Go does it when the value fits (truncation); unspecified otherwise
+		v, err := arg(0)
+		if err != nil {
+			return sval{}, err
+		}
+		if v.v.T.Sort != SFloat {
+			return sval{}, fmt.Errorf("int() of sort %s", v.v.T.Sort)
+		}
+		return sval{v: scalar(x.floatToInt(e.s, v.v.T, types.Typ[types.Int])), typ: types.Typ[types.Int]}, nil
+	case "buf": // ghost content of a string builder
+		v, err := arg(0)
+		if err != nil {
+			return sval{}, err
+		}
+		ref := v.v.T
+		if ref.Sort == SIface {
+			ref = mk(SInt, "iptr", ref)
+		}
+		return sval{v: scalar(Select(e.heapOf("ghost:buf", SArray(SInt, SStr)), ref, SStr)), typ: types.Typ[types.String]}, nil
 	case "hasMethod": // hasMethod(v, "M"): the dynamic type of v has method M (an interface with just that method is satisfied)
 		v, err := arg(0)
 		if err != nil {
